@@ -3,6 +3,7 @@ mod common;
 mod conc;
 mod conc_pending;
 mod core;
+mod exists;
 mod fmtcheck;
 mod corpus;
 mod backend;
@@ -78,6 +79,7 @@ fn main() {
         | "replay-monadic" => monadic::replay_monadic(&args[2], &args[3]),
         | "fuzz-frontend" => frontend::fuzz_frontend(&args[2], &args[3], &args[4], args[5].parse().unwrap(), args[6].parse().unwrap()),
         | "vocab-classes" => frontend::print_vocab(),
+        | "replay-exists" => exists::replay_exists(&args[2], &args[3]),
         | "fmt-dump" => fmtcheck::fmt_dump(&args[2]),
         | "corpus-format" => fmtcheck::corpus_format(&args[2], &args[3], &args[4], args[5].parse().unwrap()),
         | "replay-format" => fmtcheck::replay_format(&args[2], &args[3], &args[4], &args[5]),
